@@ -50,6 +50,13 @@ structure Call where
   statics : List Nat        -- callee locals with a static (SAVE) interface
   body : Stmt
   actuals : List Actual
+  /-- RETURN statements of the called routine: how many `Return` nodes `routine.walk(Return)` finds
+  (at any depth) and whether the routine's last statement is one.  `body` is the routine body
+  with a trailing RETURN removed (what `apply` copies); MiniF has no RETURN, so `body` represents
+  the routine faithfully exactly when `earlyReturns = 0` — which `validate = ok` guarantees
+  (`C07_validate_no_early_return`). -/
+  nReturns : Nat := 0
+  lastIsReturn : Bool := false
   deriving Repr, Inhabited
 
 /-! ## variables (own copies of the footprint functions; `Props/C07` proves them equal to
@@ -197,6 +204,7 @@ def farFrame (c : Call) (l : Nat) : Nat := maxList (allNames c) + 1 + l
 /-! ## `InlineTrans.validate` -/
 
 inductive Refusal where
+  | earlyReturn -- a Return that is not the single, last statement of the routine
   | static      -- a local with a static interface
   | container   -- the body accesses a name that is not declared in the routine
   | nargs       -- number of actual ≠ number of formal arguments
@@ -229,8 +237,13 @@ def checkArgs : List Param → List Actual → Option Refusal
     | none => checkArgs ps as
   | _, _ => none
 
+/-- RETURN statements other than one trailing RETURN: these would leave the *caller* if copied -/
+def earlyReturns (c : Call) : Nat := c.nReturns - (if c.lastIsReturn then 1 else 0)
+
 def validate (c : Call) : Except Refusal Unit :=
-  if c.locals.any (fun l => c.statics.contains l) then .error .static
+  -- `if return_stmts: if len(return_stmts) > 1 or not isinstance(routine.children[-1], Return): raise`
+  if c.nReturns ≠ 0 ∧ (c.nReturns > 1 ∨ c.lastIsReturn = false) then .error .earlyReturn
+  else if c.locals.any (fun l => c.statics.contains l) then .error .static
   else if (stmtVars c.body).any (fun x => !(paramNames c ++ c.locals).contains x) then .error .container
   else if c.params.length ≠ c.actuals.length then .error .nargs
   else match checkArgs c.params c.actuals with
